@@ -235,3 +235,17 @@ example (opt : Bool) : ∃ acB rw, CliM.bioBuild (Bio.ttLib 3) (PState.ofFacts e
 #guard ((parse exT).bind fromParser).map (·.2) == some [1, 2, 5]
 
 end C01
+
+#print axioms C01.grounded_is_lfp_any_backend
+#print axioms C01.grounded_biodivine_model_is_lfp
+#print axioms C01.grounded_native_is_lfp
+#print axioms C01.grounded_native_from_formulas
+#print axioms C01.grounded_native_from_formulas_any_n
+#print axioms C01.grounded_unique
+#print axioms C01.pregrounded_same_lfp
+#print axioms C01.hybrid_bridge_then_native
+#print axioms C01.hybrid_grounded_is_lfp
+#print axioms C01.hybrid_grounded_from_formulas
+#print axioms C01.grounded_from_text
+#print axioms C01.complete_stable_from_text
+#print axioms C01.hybrid_grounded_from_facts
